@@ -612,6 +612,15 @@ func GenCrawl(t *Tape, o CrawlOpts) *Scenario {
 		g.Sc.HQ = plan
 		cfg.HQBatchSize = 1 + c.N(4)
 	}
+	if o.Faults && !cfg.UseHQ && (o.Prop == "C01" || o.Prop == "C15" || o.Prop == "C04" || o.Prop == "C02") && c.Chance(1, 4) {
+		// the local queue's database fails now and then (a claim or a delete that has to be repeated): finite, so everything still drains
+		g.Sc.LQFaults = map[string][]string{}
+		for _, op := range []string{"get", "delete"} {
+			for i, n := 0, c.N(5); i < n; i++ {
+				g.Sc.LQFaults[op] = append(g.Sc.LQFaults[op], c.Pick("", "err", "err"))
+			}
+		}
+	}
 	g.Sc.StopAtIdle = true
 	g.Sc.Sched.MaxSteps = 60000
 	if c.bigHub {
